@@ -77,7 +77,7 @@ Theorem encode_polygon_lossless_limit : forall p,
 Proof. exact encode_polygon_lossless_none. Qed.
 Print Assumptions encode_polygon_lossless_limit.
 
-(** * Compressed format, byte level (no float reasoning): loop order, vertex order, origin
+(** * Compressed format, byte level (no float reasoning; the closed bit-identical statements follow): loop order, vertex order, origin
     flags, depths, bounds of >= 64-vertex loops; each vertex is either the original bits
     (off-centre list) or the centre the decoder reconstructs from the shifted (si,ti) *)
 Theorem roundtrip_polygon_compressed : forall level p bs, 0 <= level <= 30 -> polygon_okc p ->
@@ -97,19 +97,42 @@ Theorem encode_twice_same_bytes : forall p b1 b2, encode_polygon p = Some b1 -> 
 Proof. exact encode_deterministic. Qed.
 Print Assumptions encode_twice_same_bytes.
 
-(** * The float exactness step, under the named hypotheses *)
+(** * The float exactness step (closed: Proofs/C09_Float.v, Proofs/C09_F64Bits.v) *)
+(** whenever the cell-centre detection reports a level, the decoder's reconstruction from the
+    shifted (si,ti) is the float vector the detection compared the point with *)
+Theorem piqi_exact : forall v face si ti level,
+  s2_xyzToFaceSiTi (mk_s2_Point v) = (face, si, ti, level) -> 0 <= level ->
+  s2_facePiQitoXYZ face (s2_siTitoPiQi si level) (s2_siTitoPiQi ti level) level
+  = r3_Vector_Normalize (s2_Point_Vector (s2_faceSiTiToXYZ face si ti)).
+Proof. exact C09_Float.piqi_exact. Qed.
+Print Assumptions piqi_exact.
+
+(** Float64bits (Float64frombits x) = x for every pattern that is not NaN or infinite *)
+Theorem f64_bits_frombits : forall x, 0 <= x < 2 ^ 64 -> nonfinite_bits x = false ->
+  go_float64bits (go_float64frombits x) = x.
+Proof. exact C09_F64Bits.f64_bits_frombits. Qed.
+Print Assumptions f64_bits_frombits.
+
 (** every vertex, snapped or not, comes back bit for bit *)
-Theorem vertex_bit_identical : H_piqi_exact -> H_f64_bits_frombits ->
-  forall p level, vertex_ok p -> 0 <= level -> recon level (xyz_face_siti p) = p.
-Proof. exact vertex_exact. Qed.
+Theorem vertex_bit_identical : forall p level, vertex_ok p -> 0 <= level -> recon level (xyz_face_siti p) = p.
+Proof. exact vertex_exact_closed. Qed.
 Print Assumptions vertex_bit_identical.
 
-(** the property for polygons: both formats, every loop with at least one vertex *)
-Theorem roundtrip_polygon_bit_identical : H_piqi_exact -> H_f64_bits_frombits ->
-  forall p bs, polygon_ok p -> Forall (fun l => l_vertices l <> []) (p_loops p) ->
+(** the compressed format: every coordinate of every vertex, loop order, vertex order, origin
+    flags, depths, and the bounds of loops with at least 64 vertices *)
+Theorem roundtrip_polygon_compressed_bit_identical : forall level p bs, 0 <= level <= 30 -> polygon_ok p ->
+  Forall (fun l => l_vertices l <> []) (p_loops p) ->
+  encode_polygon_compressed level p (polygon_xs p) = Some bs ->
+  decode_polygon bs = Ok (DCompressed (map cloop_of_loop (p_loops p))).
+Proof. exact roundtrip_polygon_compressed_closed. Qed.
+Print Assumptions roundtrip_polygon_compressed_bit_identical.
+
+(** the property for polygons: whichever format Polygon.encode selects, every loop with at least one vertex *)
+Theorem roundtrip_polygon_bit_identical : forall p bs, polygon_ok p ->
+  Forall (fun l => l_vertices l <> []) (p_loops p) ->
   encode_polygon p = Some bs ->
   decode_polygon bs = Ok (DLossless p) \/ decode_polygon bs = Ok (DCompressed (map cloop_of_loop (p_loops p))).
-Proof. exact roundtrip_polygon_exact. Qed.
+Proof. exact roundtrip_polygon_exact_closed. Qed.
 Print Assumptions roundtrip_polygon_bit_identical.
 
 (** face centres written with +0 (repaired by d20845c): the replay round-trips bit for bit *)
